@@ -7,6 +7,9 @@ import (
 	"crypto/sha256"
 	"fmt"
 	"os"
+	"path/filepath"
+	"runtime"
+	"sort"
 	"strconv"
 	"strings"
 	"testing"
@@ -584,9 +587,10 @@ func (c *pkGen) genFauth(s *pkSnap) string {
 
 func (c *pkGen) next(s *pkSnap) string {
 	w := map[string]int{"recv": 22, "send": 8, "ack": 6, "timeout": 4, "fin": 10, "finkey": 5, "fulfill": 9, "updfee": 4,
-		"lpcreate": 4, "lpdel": 1, "ondemand": 6, "grant": 3, "fauth": 6, "state": 6, "finstate": 6, "fork": 2, "epoch": 2, "block": 7}
+		"lpcreate": 4, "lpdel": 1, "ondemand": 6, "grant": 3, "fauth": 6, "state": 6, "finstate": 6, "fork": 2, "epoch": 2, "block": 7, "chanclose": 1, "chanopen": 1}
 	if c.focus == "C04" {
 		w["fin"], w["finkey"], w["recv"], w["ack"], w["timeout"] = 16, 8, 26, 8, 6
+		w["chanclose"], w["chanopen"] = 3, 3
 	}
 	if c.focus == "C03" {
 		w["fork"], w["ack"], w["timeout"], w["fulfill"], w["state"], w["send"] = 9, 9, 7, 12, 8, 10
@@ -595,7 +599,7 @@ func (c *pkGen) next(s *pkSnap) string {
 		w["fulfill"], w["fauth"], w["ondemand"], w["updfee"], w["lpcreate"], w["grant"] = 12, 10, 9, 6, 6, 4
 	}
 	order := []string{"recv", "send", "ack", "timeout", "fin", "finkey", "fulfill", "updfee", "lpcreate", "lpdel", "ondemand", "grant", "fauth",
-		"state", "finstate", "fork", "epoch", "block"}
+		"state", "finstate", "fork", "epoch", "block", "chanclose", "chanopen"}
 	tot := 0
 	for _, k := range order {
 		tot += w[k]
@@ -614,6 +618,9 @@ func (c *pkGen) next(s *pkSnap) string {
 	}
 	if (kind == "fin" || kind == "finkey") && c.pickPacket(s, true) == nil && c.g.Chance(60) {
 		kind = "recv"
+	}
+	if kind == "recv" && len(s.Closed) > 0 && c.g.Chance(20) {
+		kind = "chanopen" // a closed channel rejects everything: do not stay there for long
 	}
 	if kind == "finstate" {
 		ok := false
@@ -685,6 +692,20 @@ func (c *pkGen) next(s *pkSnap) string {
 		return fmt.Sprintf("fork r%d h=%d", ri, hs[c.g.Intn(len(hs))])
 	case "epoch":
 		return "epoch"
+	case "chanclose":
+		// prefer a channel with a finalizable pending received packet: its acknowledgement cannot be written
+		for i := range s.Packets {
+			if q := &s.Packets[i]; q.Pending && q.Type == "R" && s.finalizable(q) && c.g.Chance(70) {
+				c.r.Hit("chanclose/with-finalizable-recv-packet")
+				return fmt.Sprintf("chanclose c%d", q.Chan)
+			}
+		}
+		return fmt.Sprintf("chanclose c%d", c.chanIdx())
+	case "chanopen":
+		if len(s.Closed) > 0 && c.g.Chance(85) {
+			return "chanopen " + s.Closed[c.g.Intn(len(s.Closed))]
+		}
+		return fmt.Sprintf("chanopen c%d", c.chanIdx())
 	}
 	return "block"
 }
@@ -715,6 +736,38 @@ func pkRunTrace(t *testing.T, r *Run, lines []string) {
 	r.Trace()
 }
 
+// pkCorpus: the op lines of corpus/C04/*.ops and corpus/C05/*.ops (relative to the harness directory)
+func pkCorpus() [][]string {
+	var out [][]string
+	root := ".."
+	if _, err := os.Stat(filepath.Join(root, "corpus")); err != nil {
+		if _, file, _, ok := runtime.Caller(0); ok { // not started from the harness directory
+			root = filepath.Dir(filepath.Dir(file))
+		}
+	}
+	for _, d := range []string{filepath.Join(root, "corpus", "C04"), filepath.Join(root, "corpus", "C05")} {
+		files, _ := filepath.Glob(filepath.Join(d, "*.ops"))
+		sort.Strings(files)
+		for _, f := range files {
+			b, err := os.ReadFile(f)
+			if err != nil {
+				continue
+			}
+			var lines []string
+			for _, l := range strings.Split(string(b), "\n") {
+				l = strings.TrimSpace(l)
+				if l != "" && !strings.HasPrefix(l, "#") {
+					lines = append(lines, l)
+				}
+			}
+			if len(lines) > 0 && strings.HasPrefix(lines[0], "reset") {
+				out = append(out, lines)
+			}
+		}
+	}
+	return out
+}
+
 func TestPackets(t *testing.T) {
 	focus := os.Getenv("PACKETS_FOCUS")
 	r := NewRun(t, "Packets")
@@ -722,6 +775,10 @@ func TestPackets(t *testing.T) {
 	if lines := ReplayLines(); lines != nil {
 		pkRunTrace(t, r, lines)
 		return
+	}
+	// corpus traces first: even the smallest run contains the named rare branches
+	for _, f := range pkCorpus() {
+		pkRunTrace(t, r, f)
 	}
 	nTraces, nOps := r.N(50, 600), r.N(110, 150)
 	for tr := 0; tr < nTraces; tr++ {
